@@ -159,6 +159,14 @@ theorem k2_counterexample :
     (Wire.Ipfix.encodeRecord k2Tpl [⟨[10,0,0,3], false⟩]).length = 4 := by
   refine ⟨by rfl, by rfl, by rfl⟩
 
+/-- The point `wfSpec` excludes (enterprise bit set, element id 0: outside the 1..32767 range RFC 7012 §4 gives
+enterprise-specific identifiers): the decoder tests `ElementID > 0x8000`, so the specifier `80 00` is taken as the
+IANA element 32768 WITHOUT an enterprise number, and the four enterprise-number octets that follow are read as the
+next specifier.  Malformed input, decoded without a crash (C01); recorded here because the proof forced the
+hypothesis, and run against the real decoder by the `ipfix` correspondence (corpus/C03/ipfix--enterprise-id0.txt). -/
+example : (Ipfix.readSpec ⟨[0x80, 0x00, 0x00, 0x04, 0x00, 0x00, 0x27, 0x0f], 0⟩).1 = .ok ⟨32768, 4, 0⟩ := by rfl
+example : (Ipfix.readSpec ⟨[0x80, 0x01, 0x00, 0x04, 0x00, 0x00, 0x27, 0x0f], 0⟩).1 = .ok ⟨1, 4, 9999⟩ := by rfl
+
 /-! ## Tie: the fixed-layout readers of the model read the layouts REGENERATED from the decoder source
 (`Gen.Layouts.*`, re-extracted from the `unmarshal` chains on every run; proofs in `Proofs/HeaderLayouts.lean`) -/
 theorem gen_header_layout (r : Rd) : Ipfix.readHeader r = V5.readFields (V5.widths Gen.Layouts.ipfixHeader) r :=
